@@ -45,10 +45,17 @@ Fixpoint map2 {A B C} (f : A -> B -> C) (a : list A) (b : list B) : list C :=
 
 Section Defs.
 Variable I : interp.
-(* .5f * x   for float elements;   int(.5f * float(x))   for int elements *)
-Definition half (t : ctype) (x : S I) : S I :=
-  if isfloat t then bop I Mul F32 (flit I F32 1 2) x
-  else cast I F32 t (bop I Mul F32 (flit I F32 1 2) (cast I t F32 x)).
+(* .5f * l + .5f * u   for float elements;   int(.5f * float(l) + .5f * float(u))   for int elements
+   (the repaired center(): halves before adding, so lower + upper is never formed) *)
+Definition midpoint (t : ctype) (l u : S I) : S I :=
+  let h := flit I F32 1 2 in
+  if isfloat t then bop I Add F32 (bop I Mul F32 h l) (bop I Mul F32 h u)
+  else cast I F32 t (bop I Add F32 (bop I Mul F32 h (cast I t F32 l)) (bop I Mul F32 h (cast I t F32 u))).
+(* the pre-repair expression .5f * (l + u), kept for the refutation *)
+Definition midpoint_old (t : ctype) (l u : S I) : S I :=
+  let h := flit I F32 1 2 in
+  if isfloat t then bop I Mul F32 h (bop I Add F32 l u)
+  else cast I F32 t (bop I Mul F32 h (cast I t F32 (bop I Add t l u))).
 (* 2.f * x *)
 Definition twice (t : ctype) (x : S I) : S I :=
   if isfloat t then bop I Mul F32 (flit I F32 2 1) x
